@@ -1087,6 +1087,7 @@ impl PoolExec {
                 ext_extra: 0,
                 seed: (seed << 8) ^ j ^ ((self.w.blocks.len() as u64) << 44),
                 mutation: None,
+                plant: Vec::new(),
             };
             let b = self.w.build_child(parent, &recipe);
             let v = self.w.blocks[b].view.clone();
